@@ -1,6 +1,7 @@
 (* C29/Safe.v — the decidable class of bursts for which freedom from deadlock is proved: the code of every call respects
-   ONE lock order.  The order is read off the burst itself: a lock that some call takes while it holds the root lock
-   ranks above the root lock, every other interface lock ranks below it.  (executable, no proofs)
+   ONE lock order.  The order is read off the burst itself: the Properties / Introspectable instance a fdo call enters
+   through (rank 0) < interface instances (1) < the root lock (2) < whatever some call takes WHILE it holds the root
+   lock (3: the interfaces Introspect walks, the targets of object_server().interface()).  (executable, no proofs)
 
    [safe calls = false] is the known-deviation class of C30 (Known_C30). *)
 From ZV Require Import Base.Bytes C29.Model C29.Spec C29.Steps C29.Order C29.Progress.
@@ -20,13 +21,23 @@ Fixpoint under_root (h : bool) (p : list instr) : list lock :=
 
 Definition post (calls : list call) : list lock := flat_map (fun c => under_root false (body c)) calls.
 
+(* interface instance locks are 3k+1; the Properties / Introspectable instances of a node (3k+2, 3k+3) are only ever the
+   FIRST lock of a code path *)
+Definition is_user_iface (l : lock) : bool := Nat.eqb (Nat.modulo l 3) 1.
+
 Definition rank_of (calls : list call) (l : lock) : nat :=
-  if Nat.eqb l L_root then 1 else if memn l (post calls) then 2 else 0.
+  if Nat.eqb l L_root then 2
+  else if memn l (post calls) then 3
+  else if is_user_iface l then 1 else 0.
 
 Definition safe (calls : list call) : bool := disciplined (rank_of calls) calls.
 
-(* what the property text names: method handlers that await, register / remove objects, emit signals *)
+(* what the property text names: handlers that await, register / remove objects, emit signals *)
 Definition plain_op (o : op) : bool := match o with OAwait _ | OAt | ORemove => true | OIface _ => false end.
 Definition plain_method (c : call) : bool :=
   match c_kind c with KMut | KRef | KUnknown => forallb plain_op (c_script c) | _ => false end.
 Definition methods_only (calls : list call) : bool := forallb plain_method calls.
+(* ... method AND property handlers (Get / GetAll / Set), i.e. every kind of call except Introspect *)
+Definition plain_handler (c : call) : bool :=
+  match c_kind c with KIntro => false | _ => forallb plain_op (c_script c) end.
+Definition handlers_only (calls : list call) : bool := forallb plain_handler calls.
